@@ -103,7 +103,6 @@ impl Runner for BashRunner {
         let expression = BASH_TEMPLATE
             .replace("{state_directory}", &state_directory_str)
             .replace("{name}", name)
-            .replace("{shell_expression}", &testcase.shell_expression)
             .replace("{excluded_variables}", &BASH_EXCLUDED_VARIABLES.join("|"))
             .replace(
                 "{persist_state}",
@@ -112,7 +111,9 @@ impl Runner for BashRunner {
                 } else {
                     "1"
                 },
-            );
+            )
+            // last: the expression itself is not subject to replacements
+            .replace("{shell_expression}", &testcase.shell_expression);
         trace!("compiled expression {}", &expression);
 
         let mut testcase = testcase.clone();
